@@ -21,7 +21,8 @@ struct GenOpts {
   double p_movement;   // probability of a data-movement-only program
   int min_ops, max_ops;
   bool explicit_batch_reshape;
-  GenOpts() : batch_ops(true), randoms(false), p_invalid(0), p_movement(0), min_ops(3), max_ops(12), explicit_batch_reshape(true) {}
+  bool force_batched;  // batch mode: B >= 2 and a batched input leaf from the start
+  GenOpts() : batch_ops(true), randoms(false), p_invalid(0), p_movement(0), min_ops(3), max_ops(12), explicit_batch_reshape(true), force_batched(false) {}
 };
 struct VInfo { Shp s; int dev; FV h; bool dep, taint, dead; int uses; };
 
@@ -601,7 +602,7 @@ struct Gen {
 
   // ---------------------------------------------------------------- whole program
   void generate() {
-    p = Program(); p.B = r.coin(0.1) ? 1 : r.range(2, 4); p.w = r.next() % 1000000 + 1; p.g0 = r.coin(0.25) ? 1 : 0;
+    p = Program(); p.B = (!o.force_batched && r.coin(0.1)) ? 1 : r.range(2, o.force_batched ? 5 : 4); p.w = r.next() % 1000000 + 1; p.g0 = r.coin(0.25) ? 1 : 0;
     movement = r.coin(o.p_movement);
     bool want_invalid = r.coin(o.p_invalid);
     Device::set_default(*dc.dev[0]);
@@ -609,7 +610,8 @@ struct Gen {
     vector<uint32_t> base = rand_dims();
     int np = r.range(1, 2);
     for (int i = 0; i < np; ++i) leaf(true, Shp(r.coin(0.7) ? base : rand_dims(), 1), r.coin(0.75) ? 0 : 1, r.coin(0.5) ? -1.5f : 0.3f, r.coin(0.5) ? 1.5f : 2.f);
-    if (r.coin(0.7)) leaf(false, Shp(r.coin(0.7) ? base : rand_dims(), r.coin(0.75) ? p.B : 1), r.coin(0.75) ? 0 : 1, -1.5f, 1.5f);
+    if (o.force_batched) leaf(false, Shp(r.coin(0.8) ? base : rand_dims(), p.B), r.coin(0.75) ? 0 : 1, -1.5f, 1.5f);
+    else if (r.coin(0.7)) leaf(false, Shp(r.coin(0.7) ? base : rand_dims(), r.coin(0.75) ? p.B : 1), r.coin(0.75) ? 0 : 1, -1.5f, 1.5f);
     int target = want_invalid ? (int)r.range(0, 4) : (int)r.range(o.min_ops, o.max_ops);
     int done = 0;
     for (int tries = 0; done < target && tries < 6 * target + 10 && p.ins.size() < 60; ++tries) {
@@ -624,6 +626,13 @@ struct Gen {
     for (int i = 0; i < (int)vi.size(); ++i) if (!vi[i].dead && vi[i].uses == 0 && vi[i].dep && !vi[i].taint) ends.push_back(i);
     if (ends.empty()) { for (int i = (int)vi.size() - 1; i >= 0; --i) if (!vi[i].dead && vi[i].dep) { ends.push_back(i); break; } }
     if (ends.empty()) { p.out = (int)vi.size() - 1; return; }
+    if (o.force_batched) {   // the minibatch law says something only about a batched result
+      bool has = false; for (int e : ends) has = has || vi[e].s.b > 1;
+      for (int pass = 0; pass < 2 && !has; ++pass)
+        for (int i = (int)vi.size() - 1; i >= 0; --i)
+          if (!vi[i].dead && (vi[i].dep || pass == 1) && !vi[i].taint && vi[i].s.b > 1 && !op_is_leaf(p.ins[p.value_map()[i].first].code)) { ends.push_back(i); has = true; break; }
+      if (vi[ends.back()].s.b == 1) for (size_t k = 0; k < ends.size(); ++k) if (vi[ends[k]].s.b > 1) { std::swap(ends[k], ends.back()); break; }
+    }
     if (ends.size() == 1 || r.coin(0.3)) { p.out = ends.back(); return; }
     // combine the live ends: flatten each, bring to one device, concat along axis 0
     uint32_t bat = 1; for (int e : ends) if (vi[e].s.b > 1) { bat = vi[e].s.b; break; }
